@@ -19,7 +19,7 @@ RULE = ("n = 1..4 files, each assigned (role, outside change) from {modified, re
         "size and mtime. Expected outcomes come straight from the statement: a conflicting file (modified in the "
         "buffer and changed outside after it entered) makes the flush that would write it raise - MetadataError "
         "from a per-object exit, BufferedError whose .files are exactly the conflicting files from a backend-wide "
-        "or forced flush - and keeps the outside content; read-only and untouched files never raise and are never "
+        "or forced flush, also when a second object on that file took part in the context - and keeps the outside content; read-only and untouched files never raise and are never "
         "written (audit-hook monitor armed around every library call); non-conflicting modified files are "
         "written; afterwards buffer size is 0, the capacity is what it was, every collection reads what is on disk "
         "and accepts a write. distinct = case hash; non-trivial = >= 1 outside change and >= 1 buffered "
@@ -58,14 +58,16 @@ def cases_for(spec):
             order = list(range(n))
             r.shuffle(order)
             out.append({"files": [list(a) for a in asg], "order": order,
-                        "missing": [r.random() < 0.25 for _ in range(n)]})
+                        "missing": [r.random() < 0.25 for _ in range(n)],
+                        "twins": [r.random() < 0.35 for _ in range(n)]})
     cells = [(ro, w) for ro in ROLES for w in WHEN if not (ro != "modified" and w == "after_mod")]
     for n, count in ((3, 150), (4, 150)) if spec["tier"] == "quick" else ((4, 2500), (5, 800)):
         for _ in range(count):
             asg = [list(r.choice(cells)) for _ in range(n)]
             order = list(range(n))
             r.shuffle(order)
-            out.append({"files": asg, "order": order, "missing": [r.random() < 0.25 for _ in range(n)]})
+            out.append({"files": asg, "order": order, "missing": [r.random() < 0.25 for _ in range(n)],
+                        "twins": [r.random() < 0.35 for _ in range(n)]})
     return out
 
 
@@ -136,6 +138,10 @@ def run_case(info, trigger, case):
                 r.outside_write(_content(kind, f"f{i}"), bump=False)
         extra.outside_write(_content(kind, "unrelated"), bump=False)
         objs = [r.new_handle() for r in res]
+        # a second object on the same file that only reads inside the backend-wide context (objects on one file in
+        # *different* buffered states are unsupported, so no twins with per-object contexts)
+        twins = case.get("twins") or [False] * n
+        twin_objs = {i: res[i].new_handle() for i in range(n) if twins[i] and trigger != "obj_exit"}
         xobj = extra.new_handle()
         # what the file must hold at the end (MISSING = must not exist)
         disk = [MISSING if missing[i] else _content(kind, f"f{i}") for i in range(n)]
@@ -194,6 +200,12 @@ def run_case(info, trigger, case):
                 _, e = lib(lambda i=i: objs[i]())
                 if e:
                     return V("read_raised", f"buffered re-read of file {i} raised {type(e).__name__}: {e}")
+            if i in twin_objs:
+                _, e = lib(lambda i=i: twin_objs[i]())
+                if e:
+                    return V("read_raised", f"buffered read of file {i} through a second object raised "
+                             f"{type(e).__name__}: {e}")
+                cnt["twin_reads"] = cnt.get("twin_reads", 0) + 1
         conflicts = {res[i].path for i, (role, when) in enumerate(files)
                      if role == "modified" and when in ("after_read", "after_mod")}
         cnt["conflicts_expected"] = len(conflicts)
@@ -277,6 +289,13 @@ def run_case(info, trigger, case):
         if cls.backend_is_buffered():
             return V("still_buffered", "backend_is_buffered() is still true")
         empty = {} if kind == "dict" else []
+        for i, o in twin_objs.items():
+            v, e = lib(lambda o=o: o())
+            if disk[i] == MISSING and e is None:
+                v = MISSING if model.strict_eq(v, empty) else v
+            if e is not None or not model.strict_eq(v, disk[i]):
+                return V("collection_not_in_sync", f"second object on file {i} reads {v!r} / "
+                         f"{type(e).__name__ if e else None}, disk has {disk[i]!r}")
         for i, o in enumerate(objs):
             v, e = lib(lambda o=o: o())
             if disk[i] == MISSING and e is None:
